@@ -78,6 +78,19 @@ def gen_cases(tier, seed):
             continue
         case["schedule"] = {"mode": "drain", "rng_seed": rng.randrange(10 ** 6), "tree_k": 1, "perc": 1,
                             "smallest": False}
+        vrng = intuniv.rng_for(seed, "C20e/ver", i)
+        if vrng.random() < 0.3:
+            # verified classes to be expanded afterwards, behind equivalences where possible
+            case["pack"]["ver"] = vrng.choice(("prefix1", "prefix2"))
+            case["pack"]["nest"] = vrng.choice((0, 1, 1, 2))
+            if vrng.random() < 0.7:
+                # two-step expansions outside, one-step expansions in the offered pack: classes
+                # below a verified class that also occur elsewhere get a second rule to choose
+                # from, and some classes of the original do not survive the expansion
+                case["pack"]["twice"] = vrng.choice(([0], [1], [0, 1]))
+                case["pack"]["factory"] = None
+            if vrng.random() < 0.6:
+                case["pack"]["inferral"] = vrng.choice((["minimise"], ["rename"], ["merge"], ["rename", "minimise"]))
         case.update(kind="eqs", id=k, N=N[tier])
         k += 1
         produced += 1
@@ -162,13 +175,47 @@ def run_eqs(case):
         return {"skip": "no specification"}
     spec = res.spec
     prof = searchlib.spec_profile(spec)
+    judged = judge_equations(spec, case["N"])
+    # ... and the equations of the specification after its verified classes were expanded (the
+    # classes that survive the expansion and the new ones share one numbering)
+    from comb_spec_searcher.exception import InvalidOperationError
+    from comb_spec_searcher.strategies.rule import VerificationRule
+
+    def offers_pack(rule):
+        try:
+            rule.pack()
+        except InvalidOperationError:
+            return False
+        return True
+
+    if any(isinstance(r, VerificationRule) and offers_pack(r) for r in spec.rules_dict.values()):
+        expanded = spec.expand_verified()
+        cx.count("eq.expanded_specifications_judged")
+        judge_equations(expanded, case["N"], tag=":after-expansion")
+    for k in prof["kinds"]:
+        cx.see("eq.rule_form", k.split(":")[0])
+    interesting = any(k.startswith(("Rule:RemoveFront", "EquivalencePathRule", "ReverseRule", "EquivalenceRule"))
+                      for k in prof["kinds"])
+    return {"nontrivial": judged >= 4 and interesting, "fingerprint": fp(case)}
+
+
+def judge_equations(spec, upto, tag=""):
+    cx = base.ctx()
     eqs = list(spec.get_equations())
     judged = 0
+    # F_l has to mean one class: the label of every class of the specification leads back to it
+    for c in spec.rules_dict:
+        lab = spec.get_label(c)
+        back = spec.get_comb_class(lab)
+        cx.count("eq.labels_checked")
+        if back != c:
+            cx.violation("C20:one-function-for-two-classes" + tag,
+                         f"F_{lab} stands for {c!r} and for {back!r}", {"label": lab})
     for eq in eqs:
         if "NOTIMPLEMENTED" in str(eq):
             cx.count("eq.notimplemented_not_judged")
             continue
-        err = residual_vanishes(spec, eq, case["N"])
+        err = residual_vanishes(spec, eq, upto)
         cx.count("eq.equations_checked")
         judged += 1
         if len(eq.lhs.args) > 1:
@@ -176,14 +223,10 @@ def run_eqs(case):
         if err:
             lab = int(str(eq.lhs.func).split("_")[1])
             rule = spec.get_rule(spec.get_comb_class(lab))
-            cx.violation(f"C20:equation-not-satisfied:{type(rule).__name__}",
+            cx.violation(f"C20:equation-not-satisfied:{type(rule).__name__}" + tag,
                          f"{eq} ({type(rule).__name__}, {rule.formal_step}): {err}",
                          {"equation": str(eq), "class": repr(spec.get_comb_class(lab))})
-    for k in prof["kinds"]:
-        cx.see("eq.rule_form", k.split(":")[0])
-    interesting = any(k.startswith(("Rule:RemoveFront", "EquivalencePathRule", "ReverseRule", "EquivalenceRule"))
-                      for k in prof["kinds"])
-    return {"nontrivial": judged >= 4 and interesting, "fingerprint": fp(case)}
+    return judged
 
 
 def run_genf(case):
